@@ -27,7 +27,7 @@ func RunBubble(t *testing.T, c Case) (res *Result, stuck string, err error) {
 				err = fmt.Errorf("panic inside bubble: %v", r)
 			}
 		}()
-		e := &Env{c: c, E: sk.NewSentinel("E"), T1: sk.NewSentinel("T1"), T2: sk.NewSentinel("T2"),
+		e := &Env{c: c, E: MkE(c), T1: sk.NewSentinel("T1"), T2: sk.NewSentinel("T2"),
 			srcGap: time.Duration(c.SrcGapMs) * time.Millisecond}
 		var subj Subject
 		switch c.Comb {
